@@ -33,9 +33,6 @@ def ekf_spec(cfg, state, dt, damp, scale, lin_at=None):
     filt = ivp.filtering_marginal(state)
     m, P = filt.mean_flat, cov(L, filt)
     Phi, m_pred, P_pred = ivp.predict_spec(cfg, m, P, cond)
-    H, b = lin_at if lin_at is not None else ivp.linearise_spec(cfg, m_pred, state.t + dt)
-    R = ivp.damp_cov(cfg, H, damp)
-    S = L.mm(L.mm(H, P_pred), L.T(H)) + R
     # ghost witnesses: the (memoised) contract calls of the same conditioning problems
     out = {}
     if cfg.strategy == "filter":
@@ -43,6 +40,10 @@ def ekf_spec(cfg, state, dt, damp, scale, lin_at=None):
     else:
         pred, back = cond.revert(filt, solve_triu=LA.solve_triu)
         out["back"] = back
+    # linearisation point: the predicted mean, or (abstract Taylor point) a function of the predicted random variable
+    H, b = lin_at if lin_at is not None else ivp.linearise_spec(cfg, ivp.lin_point(cfg, pred) if cfg.taylor == "abstract" else m_pred, state.t + dt)
+    R = ivp.damp_cov(cfg, H, damp)
+    S = L.mm(L.mm(H, P_pred), L.T(H)) + R
     lin = ivp.lin_cond(cfg, H, b, damp)
     observed, bwd = lin.revert(pred, solve_triu=LA.solve_triu)
     K, _, _ = law(L, bwd)
@@ -120,7 +121,7 @@ def step_contract(cfg: ivp.Cfg):
             # dynamic calibration: scale = whitened RMS of the residual of the mean-only prediction
             cond1 = state.prior.transition(dt=dt, output_scale=ones)
             u0 = cond1.apply_flat(state.u.mean_flat)
-            H0, b0 = ivp.linearise_spec(cfg, u0.mean_flat, state.t + dt)
+            H0, b0 = ivp.linearise_spec(cfg, ivp.lin_point(cfg, u0), state.t + dt)
             lin0 = ivp.lin_cond(cfg, H0, b0, damp)
             obs0 = lin0.marginalise(u0)
             Phi1, _, Q1 = law(L, cond1)
